@@ -630,7 +630,11 @@ func vC01Finalize(rig *vC01Rig, subs []vC01Submitted, nNodes int, res *vC01Resul
 		case "junk":
 			cmds = append(cmds, "LJunk")
 		default:
-			cmds = append(cmds, "LMap")
+			if len(s.bytes) == 1 && s.bytes[0] == 0x80 { // the empty map decodes as a LogOp that sets no field
+				cmds = append(cmds, "LMapEmpty")
+			} else {
+				cmds = append(cmds, "LMap")
+			}
 		}
 	}
 	type persisted struct {
